@@ -145,7 +145,8 @@ def shell_opts(rng: random.Random, want_multiclient: bool = False, small: bool =
 
 
 def gen_shell_case(rng: random.Random, want_multiclient: Optional[bool] = None,
-                   small: bool = False, hostile_text: bool = False, mc_decoys: str = 'random'):
+                   small: bool = False, hostile_text: bool = False, mc_decoys: str = 'random',
+                   mc_position: Optional[str] = None):
     """(gen, entry, cfg encoding, info): one model, one encapsulee, one valid configuration."""
     wmc = rng.random() < 0.4 if want_multiclient is None else want_multiclient
     for _attempt in range(50):
@@ -175,6 +176,7 @@ def gen_shell_case(rng: random.Random, want_multiclient: Optional[bool] = None,
             ref = gen._ref(node.fqn, ifqn, 'interfaces')
             if ref is not None:
                 taken = {p.name[0].upper() + p.name[1:] for p in comp.ports}
+                taken.add(fqn[-1][0].upper() + fqn[-1][1:])
                 pname = fresh(rng, taken, rng.choice(['single', 'snake', 'camel']),
                               casefold_first=True)
                 comp.ports.insert(rng.randint(0, len(comp.ports)),
@@ -190,8 +192,42 @@ def gen_shell_case(rng: random.Random, want_multiclient: Optional[bool] = None,
             continue
         ent = rng.choice(ents)
         enc = rand_cfg(rng, gen, ent, multiclient=wmc, hostile_text=hostile_text)
+        if mc_position and enc.get('multiclient'):
+            place_multiclient_port(rng, gen, ent, enc, mc_position)
         return gen, ent, enc, comp_info(gen, ent)
     raise RuntimeError('could not generate a shell case')
+
+
+def place_multiclient_port(rng: random.Random, gen: ModelGen, ent, enc: dict, position: str):
+    """Make sure the component has at least two further provides ports (of interfaces with
+    out-events where possible) and put the multi-client port first / in the middle / last
+    among the provides ports in declaration order."""
+    fqn, comp, node = ent
+    mc_name = enc['multiclient']['port']
+    others = [p for p in comp.ports if p.direction == 'provides' and p.name != mc_name]
+    cands = [e for e in gen.interfaces if any(ev.direction == 'out' for ev in e[1].events)] \
+        or gen.interfaces
+    taken = {p.name[0].upper() + p.name[1:] for p in comp.ports}
+    taken.add(fqn[-1][0].upper() + fqn[-1][1:])
+    while len(others) < 2:
+        ifqn, _itf, _n = rng.choice(cands)
+        ref = gen._ref(node.fqn, ifqn, 'interfaces')
+        if ref is None:
+            break
+        port = M.Port(fresh(rng, taken, rng.choice(['snake', 'camel', 'digit']), casefold_first=True),
+                      ref, 'provides')
+        comp.ports.append(port)
+        others.append(port)
+        enc['provides'] = {'sts': 'NONE', 'mts': 'ALL'}
+    mc_port = next(p for p in comp.ports if p.name == mc_name)
+    rest = [p for p in comp.ports if p is not mc_port]
+    prov_idx = [i for i, p in enumerate(rest) if p.direction == 'provides']
+    if not prov_idx:
+        return
+    where = {'first': prov_idx[0], 'last': prov_idx[-1] + 1,
+             'middle': prov_idx[len(prov_idx) // 2]}[position]
+    rest.insert(where, mc_port)
+    comp.ports[:] = rest
 
 
 def builds_with_invariant(run, install, state, n_builds: int):
